@@ -294,7 +294,7 @@ FUNCTIONS["CODE"] = wrap_ufunc(
 
 
 def _str(text):
-    if isinstance(text, bool):
+    if isinstance(text, (bool, np.bool_)):
         return str(text).upper()
     if isinstance(text, float) and text.is_integer():
         return '%d' % text
